@@ -42,6 +42,17 @@ Vals == <<I(1), I(2), F(5), S(<<115>>), S(<<116>>), Unit, B(TRUE),
           FnE(<<>>, WInt, <<Ret(I(1))>>), FnE(<<P("q", WInt)>>, WInt, <<Ret(V("q"))>>), FnE(<<P("q", WAny)>>, WInt, <<Ret(I(1))>>),
           MutE(WInt, I(1)), MutE(IF_, I(1))>>
 NV == Len(Vals)
+\* the static type of each value expression: the typed forms pass the value through a parameter of exactly this type
+\* (or this type | ()), so that the checker KNOWS a lot about the scrutinee and may decide tests early — it must
+\* decide them the way the run-time test does (a struct with more fields matches a narrower struct type, ...)
+ValTy == <<WInt, WInt, WFloat, WStr, WStr, WVoid, WBool,
+           WArr(WInt), WArr(WFloat), WArr(IF_), WArr(WNever), WArr(WStr), WArr(WArr(WInt)),
+           WArr(IF_), WArr(IF_), WArr(IF_), WArr(IF_), WArr(IF_), WArr(WInt),
+           WTup(<<WInt, WInt>>), WTup(<<WInt, WInt, WInt>>), WTup(<<WInt, WStr>>), WTup(<<WInt, WFloat>>),
+           WTup(<<WArr(WInt), WInt>>), WTup(<<WArr(WNever), WInt>>),
+           StA, StAB, WStruct(<<>>), WStruct(<< <<"a", WFloat>> >>),
+           WFn(<<>>, WInt), WFn(<<WInt>>, WInt), WFn(<<WAny>>, WInt), WMut(WInt), WMut(IF_)>>
+ASSUME Len(ValTy) = NV
 
 Test(form, ty) ==
   CASE form = "ifset" -> FnDecl("tst", <<P("v", WAny)>>, WInt, <<IfSet("y", ty, V("v"), Ret(I(1)), NoneV), Ret(I(0))>>)
@@ -53,12 +64,23 @@ Test(form, ty) ==
                 <<Set("n", MutE(WInt, I(0))),
                   WhileSet("y", ty, V("v"), Block(<<Asg("+=", V("n"), I(1)), If1(Bin(">", Deref(V("n")), I(0)), Break)>>)),
                   Ret(Deref(V("n")))>>)
-Forms == <<"ifset", "match", "match-after-value", "whileset">>
+Forms == <<"ifset", "match", "match-after-value", "whileset", "ifset-typed", "match-typed", "ifset-typedu">>
+IsTyped(form) == form \in {"ifset-typed", "match-typed", "ifset-typedu"}
+TypedTest(form, ty, i) ==
+  LET pt == IF form = "ifset-typedu" THEN WMulti(<<ValTy[i], WVoid>>) ELSE ValTy[i]
+      nm == "tst" \o ToString(i) IN
+  IF form = "match-typed"
+  THEN FnDecl(nm, <<P("v", pt)>>, WInt, <<Match(V("v"), <<ArmTy("y", ty, Ret(I(1))), ArmOther(Ret(I(0)))>>), Ret(I(2))>>)
+  ELSE FnDecl(nm, <<P("v", pt)>>, WInt, <<IfSet("y", ty, V("v"), Ret(I(1)), NoneV), Ret(I(0))>>)
 
 Bindings == [i \in 1..NV |-> Set("v" \o ToString(i), Vals[i])]
 \* forwards, then backwards: the same test instruction sees every run-time type after every other one
 Order == [i \in 1..NV |-> i] \o [i \in 1..NV |-> NV + 1 - i]
 Prog(form, ty) ==
+  IF IsTyped(form)
+  THEN Bindings \o [i \in 1..NV |-> TypedTest(form, ty, i)]
+       \o <<TupE([j \in 1..Len(Order) |-> CallE(V("tst" \o ToString(Order[j])), <<V("v" \o ToString(Order[j]))>>)])>>
+  ELSE
   Bindings \o <<Test(form, ty)>> \o <<TupE([j \in 1..Len(Order) |-> CallE(V("tst"), <<V("v" \o ToString(Order[j]))>>)])>>
 
 Cases == [i \in 1..(Len(Forms) * Len(TestTypes)) |->
